@@ -9,7 +9,7 @@ LT = "NAYY 4x150 SE"
 
 
 def rand_topo_net(rng, nb=None, p_oos_bus=0.12, p_oos_el=0.15, p_open=0.35, dcline=None, allow_bridge=True,
-                  small_load=True, n_slack=None, z_switch=True):
+                  small_load=True, n_slack=None, z_switch=True, coincide=False, parallel_lines=False):
     """Random (possibly disconnected) 20 kV net with all branch kinds, switches of all four kinds, several slacks.
     Bus indices are shuffled and gapped.  Returns net."""
     net = pp.create_empty_network()
@@ -29,18 +29,29 @@ def rand_topo_net(rng, nb=None, p_oos_bus=0.12, p_oos_el=0.15, p_open=0.35, dcli
         a, b = two()
         pp.create_line_from_parameters(net, a, b, length_km=rng.randint(1, 16) / 8, r_ohm_per_km=0.25, x_ohm_per_km=0.125,
                                        c_nf_per_km=0.0, max_i_ka=0.5, index=li, in_service=rng.random() >= p_oos_el)
-    for _ in range(rng.choice([0, 1, 1, 2])):
+    if parallel_lines and len(net.line):
+        # parallel lines of different length between the same two buses (either orientation)
+        for _ in range(rng.choice([1, 1, 2])):
+            li = rng.choice(list(net.line.index))
+            a, b = int(net.line.at[li, "from_bus"]), int(net.line.at[li, "to_bus"])
+            if rng.random() < 0.5:
+                a, b = b, a
+            pp.create_line_from_parameters(net, a, b, length_km=float(net.line.at[li, "length_km"]) + rng.randint(1, 8) / 8,
+                                           r_ohm_per_km=0.25, x_ohm_per_km=0.125, c_nf_per_km=0.0, max_i_ka=0.5,
+                                           in_service=rng.random() >= p_oos_el)
+    for _ in range(rng.choice([0, 1, 1, 2]) if not coincide else rng.choice([1, 2])):
         a, b = two()
         pp.create_transformer_from_parameters(net, a, b, sn_mva=10, vn_hv_kv=20, vn_lv_kv=20, vkr_percent=0.5, vk_percent=5,
                                               pfe_kw=0, i0_percent=0, index=rng.randint(0, 9) if len(net.trafo) == 0 else None,
                                               in_service=rng.random() >= p_oos_el)
-    for _ in range(rng.choice([0, 0, 1, 1, 2])):
+    for _ in range(rng.choice([0, 0, 1, 1, 2]) if not coincide else rng.choice([1, 2])):
         if nb < 3:
             break
         a, b, c = rng.sample(B, 3)
         pp.create_transformer3w_from_parameters(net, a, b, c, 20, 20, 20, 10, 10, 10, 5, 5, 5, 0.5, 0.5, 0.5, 0, 0,
                                                 in_service=rng.random() >= p_oos_el,
-                                                index=rng.randint(0, 5) if len(net.trafo3w) == 0 else None)
+                                                index=(int(net.trafo.index[0]) if (coincide and len(net.trafo)) else rng.randint(0, 5))
+                                                if len(net.trafo3w) == 0 else None)
     for _ in range(rng.choice([0, 0, 1, 2])):
         a, b = two()
         pp.create_impedance(net, a, b, rft_pu=0.01, xft_pu=0.02, sn_mva=10, in_service=rng.random() >= p_oos_el)
